@@ -7,4 +7,7 @@ for f in spec/*.tla; do
   ( cd spec && tla-sany "$(basename "$f")" > /dev/null 2>&1 ) || { echo "SANY failed: $f"; rc=2; }
 done
 python3-vt tools/build.py plain pv_driver > /dev/null || rc=2
+python3-vt tools/build.py plain pv_mpi > /dev/null || rc=2
+python3-vt tools/build.py cplx pv_driver > /dev/null || rc=2     # complex matrix-element build (C03, C04, C07, C10)
+python3-vt tools/build.py asan pv_driver > /dev/null || rc=2     # sanitizer build (C17)
 exit $rc
